@@ -9,7 +9,9 @@ for d in "$HERE"/seeded/*/; do
   case "$id" in benign_*) continue;; esac
   prop=$(python3 -c "import json,sys; print(json.load(open(sys.argv[1]))['property'])" "$d/meta.json")
   rm -rf "$W"; git -C /repo worktree add -q --detach "$W" HEAD || exit 9
-  if ! git -C "$W" apply "$d/patch.diff" 2>/dev/null; then echo "$id $prop APPLY-FAILED"; git -C /repo worktree remove --force "$W"; continue; fi
+  # patches were written against the /repo commit named in meta.json; later fix: commits may touch the same lines
+  if ! git -C "$W" apply "$d/patch.diff" 2>/dev/null && ! git -C "$W" apply --3way "$d/patch.diff" >/dev/null 2>&1; then
+    echo "$id $prop APPLY-FAILED (written against an earlier commit of /repo)"; git -C /repo worktree remove --force "$W"; continue; fi
   out=$(cd "$HERE" && VERIF_REPO="$W" ./check "$prop" --tier "$T" --no-evidence 2>&1); code=$?
   echo "$id $prop exit=$code $(echo "$out" | tail -1)"
   git -C /repo worktree remove --force "$W"
